@@ -26,6 +26,7 @@ theorem getD_forall {l : List K} (hl : ∀ x ∈ l, P x) (h0 : P Sca.zero) (i : 
   | none => exact h0
   | some x => exact hl x (List.mem_of_getElem? h)
 
+omit [Sca K] in
 theorem envGetD_forall {env : List (List K)} (henv : ∀ l ∈ env, ∀ x ∈ l, P x) (i : Nat) :
     ∀ x ∈ env.getD i [], P x := by
   rw [List.getD_eq_getElem?_getD]
@@ -55,6 +56,7 @@ theorem prodK_forall (hmul : ∀ a b, P a → P b → P (a * b)) (h1 : P Sca.one
       exact ih (fun x hx => hl x (List.mem_cons_of_mem _ hx)) _ (hmul _ _ ha (hl h (List.mem_cons_self ..)))
   exact this _ h1
 
+omit [Sca K] in
 theorem zipWithK_forall (f : K → K → K) (hf : ∀ a b, P a → P b → P (f a b)) {a b : List K}
     (ha : ∀ x ∈ a, P x) (hb : ∀ x ∈ b, P x) : ∀ x ∈ zipWithK f a b, P x := by
   unfold zipWithK
